@@ -14,6 +14,7 @@ import (
 	"sort"
 	"strconv"
 	"strings"
+	"sync"
 	"time"
 	_ "time/tzdata"
 
@@ -96,7 +97,18 @@ func toJSON(v any) string {
 	return strings.TrimRight(b.String(), "\n")
 }
 
+var zoneCache sync.Map
+
 func zoneOf(name string) *time.Location {
+	if v, ok := zoneCache.Load(name); ok {
+		return v.(*time.Location)
+	}
+	z := zoneOf0(name)
+	zoneCache.Store(name, z)
+	return z
+}
+
+func zoneOf0(name string) *time.Location {
 	switch name {
 	case "":
 		return nil
